@@ -756,6 +756,12 @@ pub fn analyse(sc: &Scenario, out: &RunOutput) -> Analysis {
                                             if !rr_class_valid(rr) || !rr.schema_ok {
                                                 fuzzy = true;
                                             }
+                                            // stray OPT pseudo-records are left out of the store
+                                            // model altogether (their identity includes bits of
+                                            // the TTL field; the dump leaves them out as well)
+                                            if rr.rtype == t::OPT {
+                                                continue;
+                                            }
                                             recs.push((rr.key(), rr.ttl, rr.cache_flush()));
                                         }
                                         if msg.end != dg.bytes.len() {
@@ -773,6 +779,9 @@ pub fn analyse(sc: &Scenario, out: &RunOutput) -> Analysis {
                                     if let Ok(Ok(p)) = simrt::sim::quiet_panics(|| std::panic::catch_unwind(|| simple_dns::Packet::parse(&dg.bytes[..]))) {
                                         for r in p.answers.iter().chain(p.additional_records.iter()) {
                                             if let Some((k, ttl, cf, _)) = crate::runner::record_key(r) {
+                                                if k.rtype == t::OPT {
+                                                    continue;
+                                                }
                                                 recs.push((k, ttl, cf));
                                             }
                                         }
@@ -1095,7 +1104,11 @@ pub fn analyse(sc: &Scenario, out: &RunOutput) -> Analysis {
         let got_auth: BTreeSet<RecKey> = by("auth").iter().map(|e| e.key.norm()).collect();
         let got_cached: BTreeSet<RecKey> = by("cached").iter().map(|e| e.key.clone()).collect();
         let got_all: BTreeSet<RecKey> = by("all").iter().map(|e| e.key.clone()).collect();
-        if by("all").len() != got_all.len() {
+        // a stray OPT pseudo-record (hostile peers put them in the answer section) carries its
+        // EDNS version in the TTL field: two of them can be different values with one key
+        let n_all_no_opt = by("all").iter().filter(|e| e.key.rtype != t::OPT).count();
+        let set_all_no_opt = got_all.iter().filter(|k| k.rtype != t::OPT).count();
+        if n_all_no_opt != set_all_no_opt {
             findings.push(Finding { prop: "C16", sig: "store-duplicate-key".into(), detail: format!("node {}: the store returns the same record twice (equal records must replace each other as map keys)", node) });
         }
         for k in auth.difference(&got_auth) {
